@@ -77,6 +77,7 @@ def dispatch (st : DState) (j : Json) : Except String (DState × Json) := do
           pure ({ st with sess := some w' }, obsJson w'.sess)
         else pure (st, obj [("disabled", Json.bool true)])
   | "spec.refopen" => do pure (st, ← specRefOpen j)
+  | "spec.refupdate" => do pure (st, ← specRefUpdate j)
   | _ => throw s!"unknown op {op}"
 
 end Yabgp.Glue
